@@ -7,7 +7,7 @@
      run c (init start admin) calls : the state after any list of calls, each call with the set
                                       of addresses that authorise it (a failing call changes nothing)
      abs s a r = has_role s a r     : the set of (account, role) pairs granted and not since revoked *)
-From SC Require Import Lib.Prelude Lib.Int Lib.Host Model.RoleTransfer Model.Access Proofs.Access Run.C06 Proofs.C06Monitor.
+From SC Require Import Lib.Prelude Lib.Int Lib.Host Model.RoleTransfer Model.Access Model.AllowList Proofs.Access Run.C06 Proofs.C06Monitor.
 From SC Require Proofs.RoleTransfer Run.C07.
 
 (* ---- the queryable membership describes exactly the granted set ---- *)
@@ -100,6 +100,25 @@ Theorem C06_only_owner_semantics : forall k c s au,
 Proof. exact Proofs.RoleTransfer.step_guarded. Qed.
 Print Assumptions C06_only_owner_semantics.
 
+(* #[only_role(operator, "manager")] of examples/fungible-allowlist: allow_user / disallow_user run exactly
+   for an authorising holder of the manager role and set exactly the named account's flag *)
+Theorem C06_allowlist_guard : forall c s user op au,
+  al_step c s (AllowUser user op au) =
+    (if has_role (al_s s) op (al_manager c) && has_auth au op
+     then ({| al_s := al_s s; al_allowed := upd (al_allowed s) user true |}, true) else (s, false)) /\
+  al_step c s (DisallowUser user op au) =
+    (if has_role (al_s s) op (al_manager c) && has_auth au op
+     then ({| al_s := al_s s; al_allowed := upd (al_allowed s) user false |}, true) else (s, false)).
+Proof. exact allowlist_guard. Qed.
+Print Assumptions C06_allowlist_guard.
+
+Theorem C06_allowlist_frame : forall c s cl a,
+  al_allowed (fst (al_step c s cl)) a <> al_allowed s a ->
+  exists op au, (cl = AllowUser a op au \/ cl = DisallowUser a op au) /\
+    has_role (al_s s) op (al_manager c) = true /\ has_auth au op = true.
+Proof. exact allowlist_frame. Qed.
+Print Assumptions C06_allowlist_frame.
+
 (* ---- after admin / ownership is renounced nobody passes the check, for good ---- *)
 Theorem C06_renounced_is_final : forall c s cs,
   holder (a_rt s) = None ->
@@ -128,6 +147,12 @@ Theorem C06_monitor_accepts_model_ownable : forall hd cs,
   check (observe_model_own hd cs) = (0%N, 0%N, 0%N).
 Proof. exact check_model_own. Qed.
 Print Assumptions C06_monitor_accepts_model_ownable.
+
+Theorem C06_monitor_accepts_model_allowlist : forall h cs,
+  wf_aheader (alh h) = true -> wf_alheader h = true -> forallb (wf_alcall (ah_u (alh h))) cs = true ->
+  check (observe_model_allow h cs) = (0%N, 0%N, 0%N).
+Proof. exact check_model_allow. Qed.
+Print Assumptions C06_monitor_accepts_model_allowlist.
 
 (* ---- non-vacuity: a reachable state with a role-admin chain including a cycle, swap-and-pop
    having happened, the admin renounced and a role admin still governing ---- *)
